@@ -79,7 +79,12 @@ func (d *Document) computeLen() (length uint, err error) {
 		err = rErr
 	}()
 
-	return d.scanner.Length(), err
+	length = d.scanner.Length()
+	if length == 0 {
+		// Every JSON value occupies at least one byte: nothing but blanks was found.
+		return 0, errors.NewDocumentError(d.file, errors.ErrEmptyJson)
+	}
+	return length, err
 }
 
 func (d *Document) Check() error {
